@@ -13,12 +13,13 @@ RULE = ("x/y, x//y, x%y of real operands vs exact Fraction arithmetic: '/' has n
         "|q_hat-q|<LSB; '//' == floor(x/y) exactly; '%' == x-y*floor(x/y) exactly; (x//y)*y + x%y == x computed through the library; result formats follow the documented rules; raw == repr on // and %. "
         "Generated: exhaustive - every pair of formats with n_word<=4 (thorough <=5), n_frac -1..n_word+1, whose optimal result word is >=1, every code pair with divisor!=0, roundings trunc/floor/around on the dividend's config; "
         "Hypothesis - random format pairs with result word <=53 (operand words up to 62 bits; repr method only for operand words <=53 and result words <=40: it computes in float64) biased to the extreme quotient (most negative / +-1 LSB) and negative inexact quotients. "
+        "Constants: x op c and c op x (and the in-place forms) with a python / numpy number c representable in x's format (n_word<=24): converted like x and delivered in x's format, // and % exact when representable there, / exact or within one LSB. "
         "Non-trivial = quotient not representable in the result format, or negative; distinct = distinct (formats, codes, op, method, rounding).")
 ASSUMPTIONS = ['operands created from raw codes; divisor != 0', 'format pairs whose documented optimal word is < 1 are rejected by the library (ValueError) and are outside the generator']
 EXHAUSTIVE = False    # the whole quantifier is not enumerated; complete sub-domains are listed in EXHAUSTIVE_SUBDOMAINS
 EXHAUSTIVE_SUBDOMAINS = {'quick': ['all format pairs n_word<=4 x all code pairs (divisor!=0) x {/,//,%} x 3 roundings, raw; repr for n_word<=3'],
                          'thorough': ['all format pairs n_word<=5 x all code pairs x 3 ops x 3 roundings x raw; repr for n_word<=4']}
-REQUIRED_CLASSES = {'operand>53': 300, 'inexact-quotient': 1000, 'negative-quotient': 1000, 'extreme-quotient': 50}
+REQUIRED_CLASSES = {'operand>53': 300, 'inexact-quotient': 1000, 'negative-quotient': 1000, 'extreme-quotient': 50, 'const:left': 1000, 'const:right': 1000}
 ROUNDS = ('trunc', 'floor', 'around')
 
 
@@ -152,7 +153,95 @@ def check_div(ctx, case):
                     return
 
 
-CHECKS = {'div': check_div}
+def _carrier(v, kind):
+    """The exact constant v (a Fraction that is an exact double) in a python / numpy carrier."""
+    if kind == 'int' and v.denominator == 1:
+        return int(v)
+    if kind == 'np.int64' and v.denominator == 1:
+        return np.int64(int(v))
+    if kind == 'np.float64':
+        return np.float64(float(v))
+    if kind == 'np.float32' and Fraction(float(np.float32(float(v)))) == v:
+        return np.float32(float(v))
+    if kind == '0d':
+        return np.array(float(v))
+    return float(v)
+
+
+def check_div_const(ctx, case):
+    """x op c and c op x (op in / // %) with a python / numpy constant c that is representable in x's format: the constant is first
+    converted like x (op_input_size 'same') and the result is delivered in x's format (const_op_sizing 'same'), so this is the
+    division family on two operands of one format with an imposed result format: // and % exact when representable in it,
+    / exact when representable and otherwise within one LSB; the in-place forms are the same operations."""
+    fx = tuple(case['fx'])
+    s, w, f = fx
+    op, side, method = case['op'], case['side'], case['method']
+    kx, kc = int(case['kx']), int(case['kc'])
+    F = C.Fxp()
+    ctx.ev()
+    lo, hi = M.rng(s, w)
+    vx, vc = M.value_of(kx, f), M.value_of(kc, f)
+    num, den = (vx, vc) if side == 'right' else (vc, vx)
+    if den == 0 or not M.is_double(vc) or not (lo <= kx <= hi and lo <= kc <= hi):
+        return
+    ctx.cls('const')
+    ctx.cls('const:' + side)
+    sig = 'div-const/%s/%s/%s/%s' % (op, side, method, case['carrier'] if case['carrier'].startswith('np') or case['carrier'] == '0d' else 'python')
+    c = _carrier(vc, case['carrier'])
+
+    def do():
+        x = F(kx, s, w, f, raw=True, rounding=case['rounding'], op_method=method)
+        if side == 'right':
+            if case.get('inplace'):
+                z = x
+                if op == 'truediv':
+                    z /= c
+                elif op == 'floordiv':
+                    z //= c
+                else:
+                    z %= c
+                return z
+            return x / c if op == 'truediv' else x // c if op == 'floordiv' else x % c
+        return c / x if op == 'truediv' else c // x if op == 'floordiv' else c % x
+    ok, z = ctx.guard(case, do, sig_prefix=sig + '/')
+    if not ok:
+        return
+    if not isinstance(z, F):
+        ctx.fail(sig + '/not-fxp', case, {'type': str(type(z))})
+        return
+    if C.fmt_of(z) != (bool(s), w, f):
+        ctx.fail(sig + '/format', case, {'expected': fx, 'got': C.fmt_of(z)})
+        return
+    try:
+        g = C.codes(z)
+    except ValueError as e:
+        ctx.fail(sig + '/non-integer-code', case, {'error': str(e)})
+        return
+    q = num / den
+    fl = floor_frac(q)
+    exact = q if op == 'truediv' else Fraction(fl) if op == 'floordiv' else num - den * fl
+    es = M.scaled(exact, f)
+    if not lo <= g <= hi:
+        ctx.fail(sig + '/code-out-of-range', case, {'code': g})
+        return
+    if es < lo or es > hi:
+        ctx.cls('const:result-out-of-range')
+        return
+    if es.denominator == 1:
+        ctx.nontrivial(('div-const', repr(sorted(case.items()))))
+        if g != es:
+            ctx.fail(sig + '/representable-not-exact', case, {'exact': str(exact), 'expected_code': int(es), 'got_code': g})
+            return
+        o, u, _ = C.flags(z)
+        if o or u:
+            ctx.fail(sig + '/flags', case, {'flags': C.flags(z)})
+    elif op == 'truediv':
+        ctx.nontrivial(('div-const', repr(sorted(case.items()))))
+        if not abs(Fraction(g) - es) < 1:
+            ctx.fail(sig + '/error>=LSB', case, {'exact': str(exact), 'got_code': g})
+
+
+CHECKS = {'div': check_div, 'div-const': check_div_const}
 
 
 def replay(ctx, case):
@@ -256,6 +345,25 @@ def body(ctx, case):
     check_div(ctx, case)
 
 
+@st.composite
+def st_const_case(draw):
+    fx = draw(C.st_fmt(max_w=24, min_w=2, f_lo=-1, f_hi_extra=1))
+    lo, hi = M.rng(fx[0], fx[1])
+    code = st.one_of(st.sampled_from([lo, hi, 1, -1 if fx[0] else 1, 2, 3]), st.integers(lo, hi)).map(lambda k: min(max(k, lo), hi))
+    return {'check': 'div-const', 'fx': list(fx), 'op': draw(st.sampled_from(['truediv', 'floordiv', 'mod'])), 'side': draw(st.sampled_from(['right', 'left'])),
+            'method': draw(st.sampled_from(['raw', 'raw', 'repr'])), 'rounding': draw(st.sampled_from(ROUNDS)), 'kx': draw(code), 'kc': draw(code),
+            'carrier': draw(st.sampled_from(['float', 'float', 'int', 'np.float64', 'np.int64', 'np.float32', '0d'])), 'inplace': draw(st.booleans())}
+
+
+def body_const(ctx, case):
+    ctx.sample(case, True)
+    check_div_const(ctx, case)
+
+
+def task_hyp_const(ctx, n):
+    run_given(ctx, st_const_case(), body_const, n, ctx.task_seed)
+
+
 def task_hyp(ctx, n):
     run_given(ctx, st_case(), body, n, ctx.task_seed)
 
@@ -275,4 +383,6 @@ def tasks(tier, scale=1.0):
     nh = int((2000 if tier == 'quick' else 30000) * scale)
     for i in range(12):
         out.append(('hyp-%d' % i, 'task_hyp', {'n': nh}))
+    for i in range(4):
+        out.append(('hyp-const-%d' % i, 'task_hyp_const', {'n': nh}))
     return out
